@@ -123,11 +123,11 @@ CLAIMED = {
         technique='Coq proof (induction over strings) + extracted-model correspondence + CLI subprocess runs',
         design='5/C15'),
     'C10': dict(
-        text='CLAUSES 1 AND 4 PROVED for top-level paragraphs of plain words and EVERY limit (whole pipeline model: parse, render with the limit, parse again, render to HTML / reflow again): the reflowed text is one paragraph whose lines are groups of the words, its HTML is the original with newlines where some spaces were, reflowing again gives the same lines. Theorems for ALL fragment lists and ALL limits about a Gallina model of the Markdown renderer\'s wrapping core: every produced line fits the '
+        text='CLAUSES 1 AND 4 PROVED for EVERY limit on trees of block quotes and lists of any depth (any markers, several items, tight or loose) whose paragraphs are lines of plain words, with fenced code, ATX headings and thematic breaks between them (C10_tree_reflow; whole pipeline model: parse, render with the limit, parse again, render to HTML / reflow again): the renderer writes the same tree with the words of every paragraph regrouped under the budget its containers leave; that tree is proved to lie in the C03 fragment again, so the text parses to it; its HTML is the original\'s up to line endings exchanged for spaces; reflowing again gives the same text. (First proved for top-level paragraphs of plain words: C10_plain_words_reflow.) Theorems for ALL fragment lists and ALL limits about a Gallina model of the Markdown renderer\'s wrapping core: every produced line fits the '
              'limit or is one single unbreakable word; the lines are groups of exactly the words (none dropped, added or reordered); the result depends on '
              'the fragments only through their words; code/HTML blocks, tables, ATX headings are rendered independently of the limit (all trees); quotes and '
              'list items shrink the budget by exactly the width of the prefix they add (all trees). Model tied by the real classmethods on synthetic '
-             'Fragment lists (X-wrap), prefix_lines, and whole documents (X-md). PARTIAL: clause 1 (same meaning after reflow) and idempotence through a '
+             'Fragment lists (X-wrap), prefix_lines, and whole documents (X-md). PARTIAL: for documents outside that class (inline markup, setext headings, tables, HTML) clause 1 (same meaning after reflow) and idempotence through a '
              're-parse are decided by the oracle on generated documents only.',
         note='Trusted: Coq kernel, extraction, hand-written model of markdown_renderer.py (correspondence-checked), regenerated whitespace table, document '
              'generator and HTML whitespace normaliser. Documents whose round trip already changes without a limit are C09\'s; marker-like words are kf_wrap_block_marker_word. One fix: commit (budget 0).',
